@@ -7,7 +7,12 @@
 (*   Servers  the servers; each holds its own copy of the group            *)
 (*   gs       server -> group value (GroupOps) or NoGroup                  *)
 (*   parts    stream -> number of partitions, 0 = the stream does not      *)
-(*            exist (what getStreamPartitions answers)                     *)
+(*            exist.  ALL partitions of the stream, paused or not: the      *)
+(*            statement says "every partition of every stream"; it is what *)
+(*            getStreamPartitions answers in the code as it is             *)
+(*   paused   set of <<stream, partition>>: partitions paused by            *)
+(*            PAUSE_STREAM (metadata store, not the groups: pausing and     *)
+(*            resuming never rebalance a group and are invisible to it)     *)
 (*   idx      Raft index of the last applied operation; operation k is     *)
 (*            applied with epoch = its index                               *)
 (*   obs      result of the last call                                      *)
@@ -26,14 +31,15 @@
 EXTENDS GroupOps, TLC
 
 CONSTANTS Servers
-VARIABLES gs, parts, idx, obs
-vars == <<gs, parts, idx, obs>>
+VARIABLES gs, parts, paused, idx, obs
+vars == <<gs, parts, paused, idx, obs>>
 
 Obs(a, srv, err, ret) == [a |-> a, srv |-> srv, err |-> err, ret |-> ret]
 
 Init ==
   /\ gs = [v \in Servers |-> NoGroup]
   /\ parts = [s \in {} |-> 0]
+  /\ paused = {}
   /\ idx = 0
   /\ obs = Obs("Open", "", "", <<>>)
 
@@ -48,7 +54,7 @@ DoCreateStream(s, n) ==
   /\ parts' = Put(parts, s, n)
   /\ idx' = idx + 1
   /\ obs' = Obs("CreateStream", "", "", <<>>)
-  /\ UNCHANGED gs
+  /\ UNCHANGED <<gs, paused>>
 
 \* DELETE_STREAM: the stream is gone and, in the same apply, every server calls
 \* StreamDeleted(s, index) on the groups it has (the epoch guard cannot refuse
@@ -56,6 +62,7 @@ DoCreateStream(s, n) ==
 DoDeleteStream(s) ==
   LET pc == Put(parts, s, 0) IN
   /\ parts' = pc
+  /\ paused' = {x \in paused : x[1] # s}
   /\ idx' = idx + 1
   /\ gs' = [v \in Servers |-> IF gs[v].exists THEN GStreamDeleted(gs[v], s, idx + 1, pc) ELSE gs[v]]
   /\ obs' = Obs("DeleteStream", "", "", <<>>)
@@ -67,7 +74,7 @@ DoCreateGroup(c, streams, coord) ==
                                ELSE GAddMember(NewGroup(coord, 0), c, streams, parts)]
   /\ idx' = idx + 1
   /\ obs' = Obs("CreateGroup", "", IF GroupExists THEN "exists" ELSE "", <<>>)
-  /\ UNCHANGED parts
+  /\ UNCHANGED <<parts, paused>>
 
 \* JOIN_CONSUMER_GROUP -> AddMember(consumer, streams, index)
 DoJoin(c, streams) ==
@@ -76,7 +83,7 @@ DoJoin(c, streams) ==
                                ELSE [GAddMember(gs[v], c, streams, parts) EXCEPT !.epoch = e]]
   /\ idx' = e
   /\ obs' = Obs("Join", "", IF ~GroupExists THEN "no_group" ELSE "", <<>>)
-  /\ UNCHANGED parts
+  /\ UNCHANGED <<parts, paused>>
 
 \* LEAVE_CONSUMER_GROUP -> RemoveMember(consumer, index); the last member
 \* takes the group with it.  An expired member is removed by the same
@@ -90,7 +97,7 @@ DoLeave(c) ==
                                THEN gs[v] ELSE Left(gs[v])]
   /\ idx' = e
   /\ obs' = Obs("Leave", "", IF \E v \in Servers : c \notin Members(gs[v]) THEN "not_member" ELSE "", <<>>)
-  /\ UNCHANGED parts
+  /\ UNCHANGED <<parts, paused>>
 
 \* CHANGE_CONSUMER_GROUP_COORDINATOR -> SetCoordinator(coordinator, index)
 DoChangeCoordinator(coord) ==
@@ -99,7 +106,7 @@ DoChangeCoordinator(coord) ==
                                ELSE [gs[v] EXCEPT !.coord = coord, !.epoch = e]]
   /\ idx' = e
   /\ obs' = Obs("ChangeCoordinator", "", "", <<>>)
-  /\ UNCHANGED parts
+  /\ UNCHANGED <<parts, paused>>
 
 \* Leader-side admission (metadata.go checkCreateConsumerGroupPreconditions /
 \* checkJoinConsumerGroupPreconditions): a request is proposed to Raft only if
@@ -108,11 +115,29 @@ DoChangeCoordinator(coord) ==
 \* no index.  (Part of what makes C12 hold: a member subscribed to a stream
 \* that is created later would never get its partitions.)
 AllExist(S) == \A s \in S : Exists(s)
-Refused(a) == /\ obs' = Obs(a, "", "precondition", <<>>) /\ UNCHANGED <<gs, parts, idx>>
+Refused(a) == /\ obs' = Obs(a, "", "precondition", <<>>) /\ UNCHANGED <<gs, parts, paused, idx>>
 DoProposeCreateGroup(c, S, coord) ==
   IF ~GroupExists /\ AllExist(S) THEN DoCreateGroup(c, S, coord) ELSE Refused("CreateGroup")
 DoProposeJoin(c, S) ==
   IF GroupExists /\ (\A v \in Servers : c \notin Members(gs[v])) /\ AllExist(S) THEN DoJoin(c, S) ELSE Refused("Join")
+
+\* PAUSE_STREAM / RESUME_STREAM of one partition (admitted by the leader when the
+\* stream and the partition exist): a committed operation like the others (it
+\* consumes an index), applied by every server to its metadata store.  The
+\* groups are not told and do not change: the paused partition stays a partition
+\* of its stream and stays assigned; every later rebalance of the stream (join,
+\* leave, deletion of another stream, restore) hands out ALL its partitions.
+PartExists(s, p) == p \in 0..(PartsOf(parts, s) - 1)
+DoPause(s, p) ==
+  IF PartExists(s, p)
+  THEN /\ paused' = paused \cup {<<s, p>>} /\ idx' = idx + 1
+       /\ obs' = Obs("Pause", "", "", <<>>) /\ UNCHANGED <<gs, parts>>
+  ELSE Refused("Pause")
+DoResume(s, p) ==
+  IF PartExists(s, p)
+  THEN /\ paused' = paused \ {<<s, p>>} /\ idx' = idx + 1
+       /\ obs' = Obs("Resume", "", "", <<>>) /\ UNCHANGED <<gs, parts>>
+  ELSE Refused("Resume")
 
 -----------------------------------------------------------------------------
 (* Local steps of one server *)
@@ -129,13 +154,13 @@ DoRestore(v, ord) ==
   /\ gs[v].exists
   /\ gs' = [gs EXCEPT ![v] = AddInOrder(NewGroup(@.coord, @.epoch), ord, @.subs, parts)]
   /\ obs' = Obs("Restore", v, "", <<>>)
-  /\ UNCHANGED <<parts, idx>>
+  /\ UNCHANGED <<parts, paused, idx>>
 
 \* FetchConsumerGroupAssignments(consumer, epoch) served by server v
 DoGetAssignments(v, c, e) ==
   /\ obs' = (IF ~gs[v].exists THEN Obs("GetAssignments", v, "no_group", <<>>)
              ELSE LET r == GGetAssignments(gs[v], c, e, v) IN Obs("GetAssignments", v, r.err, r.ret))
-  /\ UNCHANGED <<gs, parts, idx>>
+  /\ UNCHANGED <<gs, parts, paused, idx>>
 
 -----------------------------------------------------------------------------
 (* What C12 demands.                                                       *)
@@ -174,7 +199,10 @@ C12_Converged ==
      (\A v, w \in Servers : gs[v].exists = gs[w].exists /\
         (gs[v].exists => (gs[v].asg = gs[w].asg /\ gs[v].subs = gs[w].subs /\ gs[v].epoch = gs[w].epoch)))
 
-ImplInv == \A v \in Servers : gs[v].exists => CountersOK(gs[v]) /\ HeapsOK(gs[v])
+\* only partitions that exist are paused (a stream created again starts unpaused)
+PausedOK == \A x \in paused : PartExists(x[1], x[2])
+ImplInv == /\ \A v \in Servers : gs[v].exists => CountersOK(gs[v]) /\ HeapsOK(gs[v])
+           /\ PausedOK
 
 (* step predicates *)
 SameGroups == gs' = gs
